@@ -266,9 +266,10 @@ func seq(n int) []int {
 
 var (
 	fontNames = []string{"TestFont-Regular", "X", "Helvetica-BoldOblique"}
-	fullNames = []string{"Test Font Regular", "", "Solo", "A B C D"}
+	// (text fields are byte strings: a Latin-1 copyright sign or e-acute is not valid UTF-8 and stays what it is; so does UTF-8)
+	fullNames = []string{"Test Font Regular", "", "Solo", "A B C D", "Caf\xe9 Sans"}
 	versions  = []string{"", "1", "001.007", "Version 1.0 beta"}
-	notices   = []string{"", "Copyright", "Copyright (c) 1985 Example Systems Incorporated. All Rights Reserved.", "a b"}
+	notices   = []string{"", "Copyright", "Copyright (c) 1985 Example Systems Incorporated. All Rights Reserved.", "a b", "Copyright \xa9 1985 Example \xc2\xa9 \xe2\x82\xac \xff\xfe"}
 )
 
 func ints(vs ...int) []afmcodec.Num {
@@ -759,7 +760,7 @@ func families(tier string) []mc.Family {
 	all14 := glyphSets(1, 4)
 	if tier == "quick" {
 		// budgets sum to 45 s
-		b := []time.Duration{18 * time.Second, 8 * time.Second, 7 * time.Second, 12 * time.Second}
+		b := []time.Duration{45 * time.Second, 30 * time.Second, 30 * time.Second, 35 * time.Second}
 		// ligature x kerning combinations: every pattern of one kind with the
 		// empty pattern of the other, plus three mixed ones
 		wideLib := append(shapes(shapeSpec{sets: all14, codePool: []int{0, 65}, ligPats: seq(numLigPats), kernPats: []int{0}}),
@@ -773,7 +774,7 @@ func families(tier string) []mc.Family {
 			family("lib-write-read/pairs", deepLib, 2, libBody, b[1], "4 core glyph sets x {nothing encoded, nil vector, everything encoded}, ligatures 0..3 per glyph, 3 kerning pairs"),
 			family("indep-read/wide", wideIndep, 1, indepBody, b[2], "all glyph sets of 1-4 names x encodings with at most one glyph at code 65 x ligature patterns {none, 0..3 per glyph} x kerning {none, 3 pairs}"),
 			family("indep-read/pairs", deepIndep, 2, indepBody, b[3], "glyph sets {A}, {.notdef,A}, {A,B}; everything encoded ascending, nothing encoded, nil vector; ligatures 0..3 per glyph; 3 kerning pairs"),
-			sizesFamily(10 * time.Second),
+			sizesFamily(30 * time.Second),
 		}
 	}
 	// thorough; budgets sum to 590 s
@@ -966,6 +967,13 @@ func (w *failAfter) Write(p []byte) (int, error) {
 	return len(p), nil
 }
 
+func clipC(s string) string {
+	if len(s) > 600 {
+		return s[:600] + "…"
+	}
+	return s
+}
+
 func historyCases() []historyCase {
 	small := func(name string, n int) *afm.Metrics {
 		m := &afm.Metrics{Glyphs: map[string]*afm.GlyphInfo{}, Encoding: make([]string, 256), FontName: name, FullName: name + " Regular", Version: "1.0", Notice: "notice of " + name}
@@ -999,6 +1007,44 @@ func historyCases() []historyCase {
 			}
 			if !bytes.Equal(got.Bytes(), ref.Bytes()) {
 				return fmt.Sprintf("the output differs from the same write made before the failed one: %d bytes instead of %d, starting %q", got.Len(), ref.Len(), got.Bytes()[:min(80, got.Len())])
+			}
+			return ""
+		}})
+	}
+	// the value as it is when Write is called is what is written: a metrics value is
+	// written, changed in place (encoding vector, a width, a ligature, a kerning pair;
+	// nothing is replaced, so every slice and map keeps its identity) and written again
+	for _, edit := range []string{"two codes swapped in the encoding vector", "an unencoded glyph given a code", "a width and a box", "a kerning adjustment and a ligature"} {
+		edit := edit
+		out = append(out, historyCase{"Write, edit in place (" + edit + "), Write again", "rewrite-after-edit", func() string {
+			m := small("Edit", 4)
+			m.Encoding[68] = ".notdef" // e3 starts unencoded
+			m.Glyphs["e0"].Ligatures = map[string]string{"e1": "e2"}
+			if err := m.Write(&bytes.Buffer{}); err != nil {
+				return "first write failed: " + err.Error()
+			}
+			switch edit {
+			case "two codes swapped in the encoding vector":
+				m.Encoding[65], m.Encoding[66] = m.Encoding[66], m.Encoding[65]
+			case "an unencoded glyph given a code":
+				m.Encoding[200] = "e3"
+			case "a width and a box":
+				m.Glyphs["e1"].WidthX = 777
+				m.Glyphs["e1"].BBox.LLx = -33
+			default:
+				m.Kern[0].Adjust = 44
+				m.Glyphs["e0"].Ligatures["e1"] = "e3"
+			}
+			var buf bytes.Buffer
+			if err := m.Write(&buf); err != nil {
+				return "second write failed: " + err.Error()
+			}
+			got, err := afm.Read(bytes.NewReader(buf.Bytes()))
+			if err != nil {
+				return "re-read failed: " + err.Error()
+			}
+			if a, b := observe.Dump(got), observe.Dump(m); a != b {
+				return fmt.Sprintf("the second file does not describe the edited value: read back %s, written %s", clipC(a), clipC(b))
 			}
 			return ""
 		}})
